@@ -7,7 +7,8 @@
    (the harness pokes them into the real module's memory; the model takes the word lists).
 
    How the host stores things:
-     heap objects   the same slot map as the VM (vm/heap.rs HeapStorage), handle = transmute of the key;
+     heap objects   the same slot map as the VM (vm/heap.rs HeapStorage), handle = KeyData::as_ffi of the key
+                    (heap_idx_to_word / heap_idx_from_word; before the repair of finding P5 a transmute);
      arrays         HashMap keyed by `arrays.len() + 1`, values are the flat words ONLY (no element size is
                     remembered: every call brings its own), nothing is ever removed; handle 0 is the
                     "uninitialised array-valued state" sentinel for array_get_elem and len;
@@ -17,6 +18,8 @@ From Coq Require Import List ZArith NArith Bool.
 From Mimium Require Import Heap.Model Lmmm.Machine Prims.Float Prims.StateOps Prims.Spec Prims.Impl.
 Import ListNotations.
 Local Open Scope N_scope.
+
+Definition WE : henc := enc_ffi.
 
 Definition amap := list (N * list word).
 
@@ -114,12 +117,12 @@ Definition I32_LIMIT : N := 2147483648.
 
 Definition wasm_step (t : tabs) (w : wast) (o : op) : wast * ires :=
   match o with
-  | OHeapAlloc size => let (h, r) := hp_alloc (w_heap w) (repeat 0 (N.to_nat size)) in (with_wheap w h, r)
-  | OBoxAlloc src => let (h, r) := hp_alloc (w_heap w) (map (resolve t) src) in (with_wheap w h, r)
-  | OHeapRetain h => let (h', r) := hp_retain (w_heap w) (resolve t h) in (with_wheap w h', r)
-  | OHeapRelease h => let (h', r) := hp_release (w_heap w) (resolve t h) in (with_wheap w h', r)
-  | OHeapLoad h size => (w, hp_load (w_heap w) (resolve t h) size)
-  | OHeapStore h src => let (h', r) := hp_store (w_heap w) (resolve t h) (map (resolve t) src) in (with_wheap w h', r)
+  | OHeapAlloc size => let (h, r) := hp_alloc WE (w_heap w) (repeat 0 (N.to_nat size)) in (with_wheap w h, r)
+  | OBoxAlloc src => let (h, r) := hp_alloc WE (w_heap w) (map (resolve t) src) in (with_wheap w h, r)
+  | OHeapRetain h => let (h', r) := hp_retain WE (w_heap w) (resolve t h) in (with_wheap w h', r)
+  | OHeapRelease h => let (h', r) := hp_release WE (w_heap w) (resolve t h) in (with_wheap w h', r)
+  | OHeapLoad h size => (w, hp_load WE (w_heap w) (resolve t h) size)
+  | OHeapStore h src => let (h', r) := hp_store WE (w_heap w) (resolve t h) (map (resolve t) src) in (with_wheap w h', r)
   | OStatePush o => (with_wst w (wasm_state_push o (w_st w)), IUnit)
   | OStatePop o => (with_wst w (wasm_state_pop o (w_st w)), IUnit)
   | OStateGet size =>
